@@ -176,7 +176,7 @@ _reg(Tool("zip_longest", "iter", (0, 8),
 _reg(Tool("merge", "iter", (0, 8),
           lambda S, F, P, V: a.merge(*S, key=F.get("key"), reverse=P["reverse"]),
           lambda S, F, P, V: heapq.merge(*S, key=F.get("key"), reverse=P["reverse"]),
-          optional_roles=(("key", "table"),), profiles=(I,)))
+          optional_roles=(("key", "table"),), profiles=(I, I, "grumpy-order")))
 
 # ---- aggregations ---------------------------------------------------------
 
